@@ -235,3 +235,24 @@ func (c *Conn) Close() {
 func (c *Conn) String() string {
 	return fmt.Sprintf("conn %d<->%d iss=%d irs=%d peerWS=%d ownWS=%d ts=%v sack=%v mss=%d", c.LPort, c.PPort, c.ISS, c.IRS, c.PeerWS, c.OwnWS, c.TSok, c.SACKok, c.PeerMSS)
 }
+
+// FragNeeded injects the ICMP error a router on the path would send for the stack's
+// segment starting at stream offset rel: IPv4 destination unreachable / fragmentation
+// needed, or IPv6 packet too big, naming nextHopMTU.
+func (c *Conn) FragNeeded(rel int64, nextHopMTU int, ipid uint16) {
+	p := c.P
+	quoted := rfc.TCP{SrcPort: c.LPort, DstPort: c.PPort, Seq: c.ISS + 1 + uint32(rel), Flags: rfc.ACK}
+	m := nextHopMTU
+	if p.V6 {
+		q := rfc.IPv6{Next: rfc.ProtoTCP, Hop: 60, Src: p.Stack6, Dst: p.Peer6, Payload: quoted.Bytes6(p.Stack6, p.Peer6, true)}.Bytes(true)
+		msg := rfc.ICMP{Type: 2, Rest: [4]byte{byte(m >> 24), byte(m >> 16), byte(m >> 8), byte(m)}, Payload: q}
+		ip := rfc.IPv6{Next: rfc.ProtoICMPv6, Hop: 64, Src: p.Peer6, Dst: p.Stack6, Payload: msg.BytesV6(p.Peer6, p.Stack6, true)}
+		p.H.L.Inject(ipv6.ProtocolNumber, ip.Bytes(true), "")
+	} else {
+		q := rfc.IPv4{TTL: 60, Proto: rfc.ProtoTCP, Src: p.Stack4, Dst: p.Peer4, Payload: quoted.Bytes4(p.Stack4, p.Peer4, true)}.Bytes(true)
+		msg := rfc.ICMP{Type: 3, Code: 4, Rest: [4]byte{0, 0, byte(m >> 8), byte(m)}, Payload: q[:28]}
+		ip := rfc.IPv4{TTL: 64, Proto: rfc.ProtoICMP, ID: ipid, Src: p.Peer4, Dst: p.Stack4, Payload: msg.BytesV4(true)}
+		p.H.L.Inject(ipv4.ProtocolNumber, ip.Bytes(true), "")
+	}
+	Settle()
+}
